@@ -1315,6 +1315,7 @@ static void own_range_case(uint64_t i, Rng &r)
 static void body()
 {
     ambient::enable(3);
+    vrt::box_shifts() = true;
     vrt::require("scenarios", 15000);
     vrt::require("threw.ST::unicode_error", 8000);
     vrt::require("threw.ST::codec_error", 500);
